@@ -1,4 +1,5 @@
-(* C07, part 3: the multi-pass glue on rows (getUnalignedFragments, AlignmentResultRow.resolve), HitEnum, and concrete witnesses. *)
+(* C07, part 3: the multi-pass glue on rows (getUnalignedFragments, AlignmentResultRow.resolve, AlignmentResults.resolve), HitEnum, and
+   the concrete witnesses of the findings F8 and F9: what the code did before the repairs (regression), what it does now. *)
 From Coq Require Import ZArith QArith List Bool Lia String.
 Import ListNotations.
 Require Import Py PyProofs Pairing Core Multi Cigar CigarProofs3 Xmap XmapProofs2 ChainCore TotalProofs1 TotalProofs2.
@@ -58,6 +59,53 @@ Proof.
   - destruct (resolve_pair_g_total sl sb sa Dsb Dsa) as (r & ->); [intros; split; apply Hsl|]. eexists; reflexivity.
 Qed.
 
+(* AlignmentResultRow.resolve itself (slice never raises after repair F8) *)
+Theorem join_rows_total a b : row_pairs (rsegs a) <> [] -> row_pairs (rsegs b) <> [] ->
+  (forall s, seg0 a = Ok s -> seg_defined s) -> (forall s, seg0 b = Ok s -> seg_defined s) ->
+  exists r, join_rows a b = Ok r.
+Proof. rewrite <- join_rows_g_slice. apply join_rows_g_total. apply slice_total. Qed.
+
+(* ------------------------------------------------------------------------------------------------ AlignmentResults.resolve, generic *)
+(* generic in the join function and in the test added by repair F9 (`if resolved and resolved.alignedPairs`):
+   f9 = true is the code as it is, f9 = false the code before the repair (`if resolved`: every joined row replaced its parts) *)
+Fixpoint resolve_groups_g (jr : row -> row -> res row) (f9 : bool) (maxdiff : Z) (groups : list (list row)) : res (list row * list row) :=
+  match groups with
+  | [] => Ok ([], [])
+  | g :: t =>
+    do r <- resolve_groups_g jr f9 maxdiff t;
+    match g with
+    | [] => Ok r
+    | [x] => Ok (fst r, x :: snd r)
+    | x :: y :: _ => if check_overlap x y maxdiff
+                     then do j <- jr x y;
+                          if negb f9 || joined_ok j then Ok (j :: fst r, snd r) else Ok (fst r, g ++ snd r)
+                     else Ok (fst r, g ++ snd r)
+    end
+  end.
+Definition results_resolve_g (jr : row -> row -> res row) (f9 : bool) (rows : list row) (maxdiff : Z) : res (list row * list row) :=
+  resolve_groups_g jr f9 maxdiff (flat_map (fun byref => groupby qid (sort_by qid byref)) (groupby rid (sort_by rid rows))).
+(* f8 / f9 = "repair F8 / F9 applied": (true, true) is the model, (false, false) the code before both repairs *)
+Definition results_resolve_gen (f8 f9 : bool) : list row -> Z -> res (list row * list row) := results_resolve_g (join_rows_g (slice_gen f8)) f9.
+
+Lemma resolve_groups_g_model maxdiff groups : resolve_groups_g join_rows true maxdiff groups = resolve_groups maxdiff groups.
+Proof. induction groups as [|g t IH]; [reflexivity|]. cbn [resolve_groups_g resolve_groups]. rewrite IH. reflexivity. Qed.
+Lemma resolve_pair_g_ext sl1 sl2 : (forall s st en, sl1 s st en = sl2 s st en) -> forall a b, resolve_pair_g sl1 a b = resolve_pair_g sl2 a b.
+Proof. intros H a b. unfold resolve_pair_g. destruct (seg_empty a); [reflexivity|]. destruct (end_overlaps a b) as [ov|]; [|reflexivity]. cbn [bind].
+  destruct (negb ov); [reflexivity|]. destruct (start_position b) as [cs|]; [|reflexivity]. destruct (end_position a) as [ce|]; [|reflexivity].
+  cbn [bind]. rewrite !H. reflexivity. Qed.
+Lemma join_rows_g_ext sl1 sl2 a b : (forall s st en, sl1 s st en = sl2 s st en) -> join_rows_g sl1 a b = join_rows_g sl2 a b.
+Proof. intros H. unfold join_rows_g.
+  destruct (first_pair_rpos a) as [pa|]; [|reflexivity]. destruct (first_pair_rpos b) as [pb|]; [|reflexivity].
+  destruct (seg0 a) as [sa|]; [|reflexivity]. destruct (seg0 b) as [sb|]; [|reflexivity]. cbn [bind].
+  rewrite !(resolve_pair_g_ext sl1 sl2 H). reflexivity. Qed.
+Lemma resolve_groups_g_ext jr1 jr2 f9 maxdiff groups : (forall a b, jr1 a b = jr2 a b) ->
+  resolve_groups_g jr1 f9 maxdiff groups = resolve_groups_g jr2 f9 maxdiff groups.
+Proof. intros H. induction groups as [|g t IH]; [reflexivity|]. cbn [resolve_groups_g]. rewrite IH.
+  destruct (resolve_groups_g jr2 f9 maxdiff t) as [r|]; [|reflexivity]. cbn [bind]. destruct g as [|x [|y u]]; try reflexivity. rewrite H. reflexivity. Qed.
+Theorem results_resolve_gen_model rows maxdiff : results_resolve_gen true true rows maxdiff = results_resolve rows maxdiff.
+Proof. unfold results_resolve_gen, results_resolve_g, results_resolve. rewrite <- resolve_groups_g_model. apply resolve_groups_g_ext.
+  intros a b. rewrite <- join_rows_g_slice. apply join_rows_g_ext. apply slice_gen_true. Qed.
+
 (* ------------------------------------------------------------------------------------------------ HitEnum *)
 (* cigarString of a valid matching (C01) never raises; the empty row gives the empty string *)
 Theorem cigar_total dir ps : dir = 1 \/ dir = -1 -> valid dir ps -> exists s, cigar_string ps = Ok s.
@@ -77,19 +125,24 @@ Definition kinds (s : segment) : list Z := map (fun p => match ap p with Pair _ 
 Definition f8_row1 := row_create f8_segs1 7 1 110 190 false.
 Definition f8_row2 := row_create f8_segs2 7 1 110 190 false.
 
-Lemma f8_witness :
-  aligner_align f8_P 1 f8_ref f8_qry [110; 120] false = Ok f8_segs1 /\ map kinds f8_segs1 = [[0; 1; 2]; [0]] /\
+(* before repair F8 (slice_gen false): both passes succeed, the join raises *)
+Lemma f8_witness_before :
+  aligner_align_g (slice_gen false) f8_P 1 f8_ref f8_qry [110; 120] false = Ok f8_segs1 /\ map kinds f8_segs1 = [[0; 1; 2]; [0]] /\
   unaligned_fragments f8_row1 (mpositions f8_qry) = Ok [f8_qry] /\
-  aligner_align f8_P 3 f8_ref f8_qry [70] false = Ok f8_segs2 /\ map kinds f8_segs2 = [[0; 0]] /\
+  aligner_align_g (slice_gen false) f8_P 3 f8_ref f8_qry [70] false = Ok f8_segs2 /\ map kinds f8_segs2 = [[0; 0]] /\
   check_overlap f8_row1 f8_row2 1000000 = true /\
-  join_rows f8_row1 f8_row2 = Err /\
-  results_resolve [f8_row1; f8_row2] 1000000 = Err.
+  join_rows_g (slice_gen false) f8_row1 f8_row2 = Err /\
+  results_resolve_gen false false [f8_row1; f8_row2] 1000000 = Err /\ results_resolve_gen false true [f8_row1; f8_row2] 1000000 = Err.
 Proof. vm_compute. repeat split; reflexivity. Qed.
-(* with the repaired trimming loop the same join returns a row with the pairs (1,1) (2,3) (3,4) *)
-Lemma f8_repaired :
-  option_map (fun w => map (fun p => (site (pr (pv_of p)), site (pq (pv_of p)))) (row_pairs (rsegs w)))
-             (match join_rows_g slice_fix f8_row1 f8_row2 with Ok w => Some w | Err => None end) = Some [(1, 1); (2, 3); (3, 4)].
-Proof. vm_compute. reflexivity. Qed.
+(* the code as it is: the same passes return the same segments, the join returns a row with the pairs (1,1) (2,3) (3,4), and
+   AlignmentResults.resolve reports that row in place of its two parts *)
+Lemma f8_witness_now :
+  aligner_align f8_P 1 f8_ref f8_qry [110; 120] false = Ok f8_segs1 /\
+  aligner_align f8_P 3 f8_ref f8_qry [70] false = Ok f8_segs2 /\
+  exists j, join_rows f8_row1 f8_row2 = Ok j /\
+    map (fun p => (site (pr (pv_of p)), site (pq (pv_of p)))) (row_pairs (rsegs j)) = [(1, 1); (2, 3); (3, 4)] /\
+    results_resolve [f8_row1; f8_row2] 1000000 = Ok ([j], []).
+Proof. split; [vm_compute; reflexivity|]. split; [vm_compute; reflexivity|]. eexists. split; [vm_compute; reflexivity|]. split; vm_compute; reflexivity. Qed.
 
 (* F9: perfectMatchScore 10, distancePenaltyMultiplier 1, unmatchedPenalty -3, minScore 8, breakSegmentThreshold 6, maxPairDistance 1,
    sequentialityScore 1; reference labels at 0, 6, 14 bp (length 15), query labels at 0, 2, 9 bp (length 44), '+' strand; first pass from
@@ -104,24 +157,37 @@ Definition f9_row1 := row_create f9_segs1 7 1 440 150 false.
 Definition f9_row2 := row_create f9_segs2 7 1 440 150 false.
 Definition site_pairs_of (w : row) : list (Z * Z) := map (fun p => (site (pr (pv_of p)), site (pq (pv_of p)))) (row_pairs (rsegs w)).
 
-Lemma f9_witness :
-  aligner_align f9_P 1 f9_ref f9_qry [0; 60] false = Ok f9_segs1 /\ map seg_empty f9_segs1 = [true; false] /\
+(* before repair F9 (with or without repair F8): the pair-less joined row replaced its two parts *)
+Lemma f9_witness_before :
+  aligner_align_g (slice_gen false) f9_P 1 f9_ref f9_qry [0; 60] false = Ok f9_segs1 /\ map seg_empty f9_segs1 = [true; false] /\
   site_pairs_of f9_row1 = [(2, 1); (3, 3)] /\
   unaligned_fragments f9_row1 (mpositions f9_qry) = Ok [f9_qry] /\
-  aligner_align f9_P 3 f9_ref f9_qry [-20; -10] false = Ok f9_segs2 /\ map seg_empty f9_segs2 = [true; false] /\
+  aligner_align_g (slice_gen false) f9_P 3 f9_ref f9_qry [-20; -10] false = Ok f9_segs2 /\ map seg_empty f9_segs2 = [true; false] /\
   site_pairs_of f9_row2 = [(1, 2); (2, 3)] /\
-  exists j, results_resolve [f9_row1; f9_row2] 1000000 = Ok ([j], []) /\ site_pairs_of j = [] /\ conf j = 0.
+  exists j, results_resolve_gen false false [f9_row1; f9_row2] 1000000 = Ok ([j], []) /\
+            results_resolve_gen true false [f9_row1; f9_row2] 1000000 = Ok ([j], []) /\ site_pairs_of j = [] /\ conf j = 0.
 Proof. vm_compute. repeat split; try reflexivity. eexists. repeat split; reflexivity. Qed.
+(* the code as it is: same passes, same rows; the join of the two first segments is still a row without any pair, but
+   AlignmentResults.resolve no longer reports it: the two parts stay un-joined *)
+Lemma f9_witness_now :
+  aligner_align f9_P 1 f9_ref f9_qry [0; 60] false = Ok f9_segs1 /\
+  aligner_align f9_P 3 f9_ref f9_qry [-20; -10] false = Ok f9_segs2 /\
+  check_overlap f9_row1 f9_row2 1000000 = true /\
+  (exists j, join_rows f9_row1 f9_row2 = Ok j /\ site_pairs_of j = [] /\ joined_ok j = false) /\
+  results_resolve [f9_row1; f9_row2] 1000000 = Ok ([], [f9_row1; f9_row2]).
+Proof. split; [vm_compute; reflexivity|]. split; [vm_compute; reflexivity|]. split; [vm_compute; reflexivity|].
+  split; [eexists; split; [vm_compute; reflexivity|]; split; vm_compute; reflexivity|]. vm_compute. reflexivity. Qed.
 
-Lemma f8_join_refuted : exists P reference query peaks1 peaks2 segs1 segs2 frag,
+(* the full-statement witness of F8, over the code before the repair *)
+Lemma f8_join_refuted_before : exists P reference query peaks1 peaks2 segs1 segs2 frag,
   StronglySorted Z.le (mpositions reference) /\ StronglySorted Z.le (mpositions query) /\ SU P <= 0 /\ 0 < MS P /\
-  aligner_align P 1 reference query peaks1 false = Ok segs1 /\
+  aligner_align_g (slice_gen false) P 1 reference query peaks1 false = Ok segs1 /\
   (let w1 := row_create segs1 (mid query) (mid reference) (mlen query) (mlen reference) false in
    unaligned_fragments w1 (mpositions query) = Ok [frag] /\
-   aligner_align P 3 reference frag peaks2 false = Ok segs2 /\
+   aligner_align_g (slice_gen false) P 3 reference frag peaks2 false = Ok segs2 /\
    let w2 := row_create segs2 (mid query) (mid reference) (mlen query) (mlen reference) false in
    row_pairs (rsegs w1) <> [] /\ row_pairs (rsegs w2) <> [] /\ check_overlap w1 w2 1000000 = true /\
-   join_rows w1 w2 = Err /\ results_resolve [w1; w2] 1000000 = Err).
+   join_rows_g (slice_gen false) w1 w2 = Err /\ results_resolve_gen false false [w1; w2] 1000000 = Err).
 Proof.
   exists f8_P, f8_ref, f8_qry, [110; 120], [70], f8_segs1, f8_segs2, f8_qry.
   split; [repeat (apply SSorted_cons || apply SSorted_nil || apply Forall_cons || apply Forall_nil); discriminate|].
